@@ -46,7 +46,18 @@ def _corpora():
 
 
 def fresh_prepare():
-    _corpora()
+    """Runs once in the zygote: compile + import both packages and pre-compute the HARNESS's own view of the classes
+    (dataclass fields + typing.get_type_hints - nothing of betterproto's lazily built per-class state is touched)."""
+    import betterproto
+
+    from ..values import BPInfo
+
+    for c in _corpora().values():
+        for obj in vars(c.mod).values():
+            if isinstance(obj, type) and issubclass(obj, betterproto.Message) and obj.__module__ == c.mod.__name__:
+                BPInfo.of(obj)
+                if "_betterproto_meta" in vars(obj):
+                    raise RuntimeError("harness touched betterproto's per-class metadata in the zygote")
 
 
 def _enum_identity(c, schema, mi, m, out, where=""):
